@@ -61,6 +61,11 @@ def genOps3 : List (String × R String) := [
       pure (ans hex (Gen.transaction_to_bytes Gen.OP_CODES t.version
         (t.inputs.map fun i => ⟨i.txid, i.index, py i.scriptSig, i.sequence⟩)
         (t.outputs.map fun o => ⟨o.amount, py o.script⟩) (t.witnesses.map Py.PyWit.mk) t.locktime seg))),
+  ("g:disasm", do
+      let b ← bytes; let seg ← bool
+      let sh := fun (t : Py.PyTok) => match t with
+        | Py.PyTok.name n => "o:" ++ n | Py.PyTok.int n => "i:" ++ toString n | Py.PyTok.data d => "d:" ++ hex d
+      pure (ans (fun (ts : List Py.PyTok) => " ".intercalate (toString ts.length :: ts.map sh)) (Gen.script_from_raw Gen.CODE_OPS b seg))),
   ("g:rmd", do let b ← bytes; pure (ans hex (Gen.rmd_ripemd160 b))),
   ("g:schnorr_sign", do let m ← bytes; let k ← bytes; let a ← bytes; pure (ans hex (Gen.schnorr_sign Crypto.sha256 m k a))),
   ("g:schnorr_verify", do let m ← bytes; let k ← bytes; let s ← bytes; pure (ans (fun (b : Bool) => if b then "1" else "0") (Gen.schnorr_verify Crypto.sha256 m k s))),
